@@ -3,6 +3,7 @@ CONSTANTS
   MaxRanges = 3
   Starts = {0, 2, 4, 6}
   MaxQueries = 1
+  NumericAcross = TRUE
 INVARIANT TypeOK
 INVARIANT StrictTie
 INVARIANT OrderIndependent
